@@ -2145,6 +2145,27 @@ class ObjectDomain(LazyGenerators, EffectDomain):
         if d == "map" and len(call.args) >= 3 and not call.keywords and not any(isinstance(a, ast.Starred) for a in call.args) and not st.has(fr.local("map")) and self.lazy_generators:
             # map(f, a, b, ...): f applied to the elements of a, b, ... in step, as the result is consumed
             return [r if r.kind == "exc" else self._iterator_object(("zipmap", r.value[0], tuple(r.value[1:])), r.state) for r in interp.eval_list(list(call.args), st, fr, share=[True] * len(call.args))]
+        if d == "dict" and len(call.args) == 1 and not call.keywords and not isinstance(call.args[0], ast.Starred) and not st.has(fr.local("dict")) and getattr(self, "exact_dicts", False):
+            # dict(<pairs produced one by one>): the pairs are pulled to the end, later keys replacing earlier ones
+            got = interp.eval(call.args[0], st, fr)
+            if got and all(r.kind == "exc" or self.pullable(r.value) or (isinstance(r.value, tuple) and r.value[:1] == ("lazymap",)) for r in got):
+                out = []
+                for r in interp._forced(got, fr):
+                    if r.kind == "exc":
+                        out.append(r)
+                        continue
+                    els = interp._exact_elements(r.value)
+                    items, ok_ = [], els is not None
+                    for el in els or []:
+                        el = unbox(el, r.state)
+                        pair = interp._exact_elements(el)
+                        k_ok, key_ = self._dkey(pair[0]) if pair is not None and len(pair) == 2 else (False, None)
+                        if not k_ok:
+                            ok_ = False
+                            break
+                        items = [(k2, v2) for k2, v2 in items if k2 != key_] + [(key_, pair[1])]
+                    out.append(val(("kwdict", tuple(items)) if ok_ else TOP, r.state))
+                return out
         if d in ("itertools.starmap", "starmap") and len(call.args) == 2 and not call.keywords and not any(isinstance(a, ast.Starred) for a in call.args) and self.lazy_generators \
                 and not st.has(fr.local("starmap")):
             # starmap(f, rows): f(*row) for each row, as the result is consumed
